@@ -243,10 +243,18 @@ def model_json_print(cx, docs, ctxlines, component):
         if r[0] != "ok":
             cx.count(None, False, component + ":jsontree-model:" + " ".join(r[:2]))
             continue
-        reqs.append("%d jsontree print %s" % (len(reqs), r[2]))
+        reqs.append("%d jsontree print %s" % (len(back), r[2]))
+        reqs.append("s%d jsontree spec %s" % (len(back), r[2]))
         back.append((doc, wd, unhex(r[1]), r[2]))
     rm = cx.run_model(reqs) if reqs else {}
     for i, (doc, wd, pj, view) in enumerate(back):
+        # the declarative specification (JsonTree/Spec.lean, what Props.C12.json_tree_refines_spec is about) on the same view
+        sp = rm.get("s%d" % i, ["err", "NoReply"])
+        if sp[0] == "ok":
+            cx.count(("jsontree-spec", view, wd), True, component + ":jsontree-spec:%s" % WDN[wd])
+            if unhex(sp[1]) != pj:
+                cx.disagree(component + "-jsontree-spec", ("jsontree spec wd=%s " % WDN[wd]) + view[:3000], ["ok", pj.decode("utf-8", "replace")[:1500]],
+                            ["ok", unhex(sp[1]).decode("utf-8", "replace")[:1500]])
         r = rm.get(str(i), ["err", "NoReply"])
         if r[:2] == ["err", "Unsupported"]:
             cx.count(None, False, component + ":jsontree-model:out-of-fragment")
